@@ -217,10 +217,11 @@ func (p *parser) varDeclaration(startDepth int, isField, isGeneric bool) ast.Dec
 		if p.matchAny(token.COUNT_MAL) {
 			value := p.expression()
 			expr_tok := expr.Token()
+			listType, _ := ddptypes.CastList(typ) // typ may be an alias of a list type
 			expr = &ast.ListLit{
 				Tok:    expr.Token(),
 				Range:  token.NewRange(&expr_tok, p.previous()),
-				Type:   typ.(ddptypes.ListType),
+				Type:   listType,
 				Values: nil,
 				Count:  expr,
 				Value:  value,
